@@ -80,28 +80,45 @@ def values(special=True):
     return st.one_of(*alts)
 
 
+# strategies are built once (building and validating them per draw dominated the run time)
+_V = {True: values(True), False: values(False)}
+_VLIST = {(sp, n): st.lists(_V[sp], min_size=n, max_size=n) for sp in (True, False) for n in range(1, 5)}
+_SF = {}
+
+
+def _sampled(*items):
+    s = _SF.get(items)
+    if s is None:
+        s = _SF[items] = st.sampled_from(list(items))
+    return s
+
+
+_DIMS = st.integers(1, 4)
+_SMALLINT = st.integers(-5, 5)
+
+
 @st.composite
 def records(draw, h):
     """one record [xform, x, yform, y, id] (plain data)"""
     dim, ydim = h['dim'], h['ydim']
     if h.get('ragged'):
-        dim = draw(st.integers(1, 4)); ydim = draw(st.sampled_from([0, 0, 1, 2, 3]))
+        dim = draw(_DIMS); ydim = draw(_sampled(0, 0, 1, 2, 3))
     forms = h['forms']
-    xform = draw(st.sampled_from(XFORMS[forms]))
-    x = draw(st.lists(values(h.get('xspecial', False)), min_size=dim, max_size=dim))
+    xform = draw(_sampled(*XFORMS[forms]))
+    x = draw(_VLIST[(bool(h.get('xspecial', False)), dim)])
     if ydim == 0:
-        yform = draw(st.sampled_from(YSFORMS[forms] + (['0d', '0d'] if h.get('zero_d') else [])))
-        y = draw(st.integers(-5, 5)) if yform == 'int' else draw(values(True))
+        yform = draw(_sampled(*(YSFORMS[forms] + (['0d', '0d'] if h.get('zero_d') else []))))
+        y = draw(_SMALLINT) if yform == 'int' else draw(_V[True])
     else:
-        yform = draw(st.sampled_from(YVFORMS[forms]))
-        y = draw(st.lists(values(True), min_size=ydim, max_size=ydim))
+        yform = draw(_sampled(*YVFORMS[forms]))
+        y = draw(_VLIST[(True, ydim)])
     mode = h['idmode']
     if mode == 'none':
         id = None
     elif mode == 'const':
         id = h['id0']
     else:
-        id = draw(st.sampled_from([None, 0, 1, 2, 7]))
+        id = draw(_sampled(None, 0, 1, 2, 7))
     return [xform, x, yform, y, id]
 
 
@@ -188,6 +205,8 @@ def want_y(rec):
     y = rec[3]
     if isinstance(y, list):
         return [float(v) for v in FL(y)]
+    if rec[2] == 'int':
+        return int(y)           # an integer cost: zero has no sign
     return float(F(y))
 
 
@@ -244,6 +263,8 @@ def feq(got, want, n=0):
         g = float(got)
     except Exception:
         return False
+    if isinstance(want, int):
+        return g == want if n == 0 else abs(g - want) <= n * math.ulp(float(want))
     if want != want:
         return g != g
     if g != g:
@@ -283,7 +304,7 @@ def ideq(got, want):
 
 
 def flat(o):
-    if isinstance(o, (list, tuple, np.ndarray)):
+    if isinstance(o, (list, tuple)) or (isinstance(o, np.ndarray) and o.ndim > 0):
         out = []
         for i in o:
             out.extend(flat(i))
@@ -871,6 +892,17 @@ def _mixed_scalar_types(m):
     return bool(ys) and hasattr(ys[0], 'tolist') and any(not hasattr(v, 'tolist') for v in ys)
 
 
+def _loose(got, want, k):
+    """got is want/k up to a few ulp (sign of zero ignored): only used to classify a failure"""
+    try:
+        if isinstance(want, list):
+            return len(got) == len(want) and all(_loose(g, w, k) for g, w in zip(got, want))
+        g = float(got); w = float(want) / k
+        return (g != g and w != w) or g == w or (math.isfinite(w) and abs(g - w) <= 8 * math.ulp(w))
+    except Exception:
+        return False
+
+
 def _fresh_read(modname, fn):
     importlib.invalidate_caches()
     try:
@@ -910,13 +942,13 @@ def run_files(case, ctx):
     def info(p):
         def f():
             txt = open(p).read() if os.path.exists(p) else ''
-            return dict(facts, file=txt[-500:], np_repr_in_file=('np.float64(' in txt))
+            return dict(facts, file=txt[-500:], np_repr_in_file=('np.float64(' in txt or 'array(' in txt))
         return f
 
     def cost_ok(sub, cost, n):
         ok = len(cost) == T and all(yeq(g, w, n) for g, w in zip(cost, ys))
         over_k = (not ok) and k not in (None, 1) and len(cost) == T and \
-            all(yeq(g, ([v / k for v in w] if isinstance(w, list) else w / k), 8) for g, w in zip(cost, ys))
+            all(_loose(g, w, k) for g, w in zip(cost, ys))
         ctx.expect(ok, sub, lambda: dict(got=show(cost), recorded=ys, k=k, ulps_allowed=n, got_is_cost_over_k=bool(over_k)))
 
     def ids_ok(sub, got):
@@ -1047,11 +1079,11 @@ def run_files(case, ctx):
 # --------------------------------------------------------------------------- tests
 TESTS = [
     Test('machine', _run_machine, machine=machine_factory,
-         examples={'quick': 2400, 'thorough': 60000}, steps={'quick': 16, 'thorough': 40}),
+         examples={'quick': 2000, 'thorough': 50000}, steps={'quick': 16, 'thorough': 40}),
     Test('log', run_log, strategy=lambda tier: log_cases(tier),
-         examples={'quick': 3000, 'thorough': 100000}),
+         examples={'quick': 2400, 'thorough': 80000}),
     Test('files', run_files, strategy=lambda tier: file_cases(tier),
-         examples={'quick': 3000, 'thorough': 100000}),
+         examples={'quick': 2400, 'thorough': 80000}),
 ]
 
 
@@ -1064,7 +1096,8 @@ def _kf_np_repr(case, sub, detail):
         return False
     if sub == 'C20.load_readable':          # monitors._load wraps every error in OSError
         return detail.get('exception') == 'OSError' and 'error reading' in detail.get('message', '')
-    return detail.get('exception') == 'NameError' and "'np'" in detail.get('message', '')
+    return detail.get('exception') == 'NameError' and ("'np'" in detail.get('message', '') or
+                                                       "'array'" in detail.get('message', ''))
 
 
 def _kf_zero_d(case, sub, detail):
@@ -1088,7 +1121,7 @@ def _kf_tolist(case, sub, detail):
     if sub in ('C20.support_writable', 'C20.converge_writable'):
         return detail.get('exception') == 'AttributeError' and 'tolist' in detail.get('message', '')
     if sub == 'C20.history_monitor_readable':
-        return detail.get('exception') == 'TypeError' and 'Monitor' in detail.get('message', '')
+        return detail.get('exception') == 'TypeError' and 'is not a monitor instance' in detail.get('message', '')
     return False
 
 
